@@ -186,7 +186,7 @@ func (r *Report) Finish(verifDir, tier string, seed int64, start time.Time, stat
 		case Violated, Undecided:
 			matched := false
 			for _, k := range known {
-				if k.Status == "known" && k.Property == r.Prop && k.Rule == o.Rule && k.Construct == o.Construct {
+				if k.Status == "known" && k.Property == r.Prop && k.Rule == o.Rule && normConstruct(k.Construct) == normConstruct(o.Construct) {
 					matched = true
 					o.Known = k.ID
 					fmt.Printf("KNOWN-FINDING: property=%s %s [%s %s] %s\n", r.Prop, k.ID, o.Rule, o.Construct, k.What)
@@ -296,4 +296,9 @@ func (r *Report) Finish(verifDir, tier string, seed int64, start time.Time, stat
 		return 1
 	}
 	return 0
+}
+
+// normConstruct: a finding is about a function, not about whether its receiver is a value or a pointer today.
+func normConstruct(c string) string {
+	return strings.ReplaceAll(c, "(*", "(")
 }
